@@ -917,6 +917,9 @@ impl<R: Read> RdbReader<R> {
                 for _ in 0..count {
                     let member = self.read_string()?;
                     let score = self.read_f64()?;
+                    if score.is_nan() {
+                        return Err(FerrousError::Io("Invalid sorted set score (NaN) in RDB file".to_string()));
+                    }
                     storage.zadd(db, key.clone(), member, score)?;
                 }
                 
@@ -955,7 +958,8 @@ impl<R: Read> RdbReader<R> {
                             };
                             
                             // Check if we have enough remaining data for all fields
-                            if entry_idx + (field_count * 2) > remaining_count {
+                            if field_count.checked_mul(2).and_then(|n| n.checked_add(entry_idx))
+                                .map_or(true, |needed| needed > remaining_count) {
                                 break; // Not enough data for all field-value pairs
                             }
                             
@@ -1007,7 +1011,9 @@ impl<R: Read> RdbReader<R> {
                 for _ in 0..count {
                     members.push(self.read_string()?);
                 }
-                storage.sadd(db, key.clone(), members)?;
+                if !members.is_empty() {
+                    storage.sadd(db, key.clone(), members)?;
+                }
                 
                 if let Some(ttl) = ttl {
                     storage.expire(db, &key, ttl)?;
@@ -1024,7 +1030,9 @@ impl<R: Read> RdbReader<R> {
                     let value = self.read_string()?;
                     field_values.push((field, value));
                 }
-                storage.hset(db, key.clone(), field_values)?;
+                if !field_values.is_empty() {
+                    storage.hset(db, key.clone(), field_values)?;
+                }
                 
                 if let Some(ttl) = ttl {
                     storage.expire(db, &key, ttl)?;
@@ -1073,8 +1081,15 @@ impl<R: Read> RdbReader<R> {
     /// Read string
     fn read_string(&mut self) -> Result<Vec<u8>> {
         let len = self.read_length()?;
-        let mut buf = vec![0u8; len];
-        self.read_exact(&mut buf)?;
+        
+        // Read through a bounded adapter: memory is only allocated for bytes that
+        // are really in the file, whatever a (possibly corrupt) length field says
+        let mut buf = Vec::with_capacity(len.min(64 * 1024));
+        let read = (&mut self.reader).take(len as u64).read_to_end(&mut buf)
+            .map_err(|e| FerrousError::Io(e.to_string()))?;
+        if read != len {
+            return Err(FerrousError::Io("Unexpected end of RDB file inside a string".to_string()));
+        }
         Ok(buf)
     }
     
